@@ -314,6 +314,10 @@ func runC10(c *Ctx) {
 			if ok, r := c.Locks().SameRegion(fi, "nbhttp.ClientConn.mux", loopCall, clear); !ok {
 				bad = "the mutex is released at " + c.Pos(r) + " between notifying and clearing"
 			}
+			// every path from the notification to the function's exit clears the list
+			if esc := fi.EscapesWithout([]ssa.Instruction{loopCall}, func(in ssa.Instruction) bool { return in == clear }); len(esc) > 0 && bad == "" {
+				bad = "a path from the notification loop reaches the return at " + c.Pos(esc[0]) + " without clearing the pending list (the clear at " + c.Pos(clear) + " is conditional): a notified handler stays queued and is invoked again with the next response"
+			}
 			// the error passed is non-nil by construction (io.EOF default)
 		}
 		c.Cond(bad == "", "C10.O3", fnKey(c.P, cw, "every pending handler once"), c.FnPos(cw), "notify loop then handlers = nil in one critical section", bad)
